@@ -11,6 +11,16 @@ from . import common
 def same_vector(R, got, ref, label="v", ref_is_cart=False):
     """goals: two vectors (or a vector and a Cartesian component list) denote the same geometric vector"""
     lib = R.lib
+    if not ref_is_cart and common.is_vector(got) and common.is_vector(ref):
+        sg, cg_ = lanes.stored(got)
+        sr, cr_ = lanes.stored(ref)
+        if len(sg) == 3 and len(sr) == 3 and sg[2] == "tau" and sr[2] == "tau":
+            # both store proper time: same vector <=> same spatial part and same stored tau (no derived t needed)
+            a3 = spec.decode(lib, sg[:2], cg_[:3])
+            b3 = spec.decode(lib, sr[:2], cr_[:3])
+            goals = [(f"{label}.{nm}", G.eq(x, y)) for nm, x, y in zip("xyz", a3, b3)]
+            goals.append((f"{label}.tau", G.eq(cg_[3], cr_[3])))
+            return goals
     cr = ref if ref_is_cart else spec.cart(lib, ref)
     if not common.is_vector(got):
         return [(f"{label}-kind", G.true(False, f"{type(got).__name__} is not a vector"))]
